@@ -108,7 +108,8 @@ def job_append(res, n, nb, N, npart):
             prove(res, '%s %s: %s extended to %d records, hyperslab offset (%d,0..) count %s, payload == the named source with bunch b in row b' % (cfg, label, path, recno + cnt, recno, full), st.pc,
                   z3.Or(z3.BoolVal(not geo), differs(w['payload'], src)), key=key, cex_fn=lambda m: {'replay': 'layout', 'n': n, 'nb': nb, 'N': N, 'np': npart, 'path': path, 'geometry_ok': geo})
     proj0 = X['proj'][:nb * n]; proj1 = X['proj'][nb * n:]
-    def ps_expect(recno, recno_ps, at):
+    def ps_expect(recno, recno_ps, at, X=X):
+        proj0 = X['proj'][:nb * n]; proj1 = X['proj'][nb * n:]
         e = {}
         if at in (0, 2): e['/PhaseSpace/axis0'] = ([], [t], recno_ps, 1); e['/PhaseSpace/data'] = ([nb, n, n], X['data'], recno_ps, 1)
         if at != 2:
@@ -116,14 +117,22 @@ def job_append(res, n, nb, N, npart):
                       '/EnergyProfile/data': ([nb, n], proj1, recno, 1), '/EnergySpread/data': ([nb], X['rms'][nb:2 * nb], recno, 1), '/EnergyAverage/data': ([nb], X['mom'][4 * nb:5 * nb], recno, 1), '/BunchPopulation/data': ([nb], X['fill'], recno, 1)})
         return e
     s, lg = run(st, 'e_append_ps', [h5, R['psobj'], t, 0]); check_records('append(ps, All) #1', lg, ps_expect(0, 0, 0), 'append-ps')
-    s, lg = run(s, 'e_append_ps', [h5, R['psobj'], t, 1]); check_records('append(ps, Defaults) #2', lg, ps_expect(1, 1, 1), 'append-ps')
-    s, lg = run(s, 'e_append_ps', [h5, R['psobj'], t, 2]); check_records('append(ps, PhaseSpace) #3', lg, ps_expect(2, 1, 2), 'append-ps')
+    # later records hold what the objects hold THEN: every source gets new content before the second append of its kind (a record that repeats an earlier one would otherwise pass)
+    X2 = dict(X)
+    X2['data'] = symf(ex, s, R['data'], ['e%d' % i for i in range(nb * n * n)]); X2['proj'] = symf(ex, s, R['proj'], ['qr%d' % i for i in range(2 * nb * n)])
+    X2['fill'] = symf(ex, s, R['filling'], ['gl%d' % i for i in range(nb)]); X2['mom'] = symf(ex, s, R['moment'], ['np%d' % i for i in range(8 * nb)]); X2['rms'] = symf(ex, s, R['rms'], ['sm%d' % i for i in range(2 * nb)])
+    s, lg = run(s, 'e_append_ps', [h5, R['psobj'], t, 1]); check_records('append(ps, Defaults) #2 (new content)', lg, ps_expect(1, 1, 1, X2), 'append-ps')
+    s, lg = run(s, 'e_append_ps', [h5, R['psobj'], t, 2]); check_records('append(ps, PhaseSpace) #3', lg, ps_expect(2, 1, 2, X2), 'append-ps')
     spec_rows = [X['spec'][b * NM + k] for b in range(nb) for k in range(maxn)]
     s, lg = run(s, 'e_append_ef', [h5, R['rdtn']]); check_records('append(field) #1', lg, {'/CSR/Spectrum/data': ([nb, maxn], spec_rows, 0, 1), '/CSR/Intensity/data': ([nb], X['pow'], 0, 1)}, 'append-csr')
-    s, lg = run(s, 'e_append_ef', [h5, R['rdtn']]); check_records('append(field) #2', lg, {'/CSR/Spectrum/data': ([nb, maxn], spec_rows, 1, 1), '/CSR/Intensity/data': ([nb], X['pow'], 1, 1)}, 'append-csr')
+    spec2 = symf(ex, s, R['csrspec'], ['tp%d' % i for i in range(nb * NM)]); pow2 = symf(ex, s, R['csrpow'], ['qw%d' % i for i in range(nb)]); spec_rows2 = [spec2[b * NM + k] for b in range(nb) for k in range(maxn)]
+    s, lg = run(s, 'e_append_ef', [h5, R['rdtn']]); check_records('append(field) #2 (new content)', lg, {'/CSR/Spectrum/data': ([nb, maxn], spec_rows2, 1, 1), '/CSR/Intensity/data': ([nb], pow2, 1, 1)}, 'append-csr')
     s, lg = run(s, 'e_append_wkm', [h5, R['wkm']]); check_records('append(wake map)', lg, {'/WakePotential/data': ([nb, n], X['force'], 0, 1)}, 'append-wake')
     s, lg = run(s, 'e_append_rf', [h5, R['kicks']]); check_records('appendRFKicks(3 steps)', lg, {'/RFKicks/data': ([2], X['kicks'], 0, 3)}, 'append-rfkicks')
-    s, lg = run(s, 'e_append_rf', [h5, R['kicks']]); check_records('appendRFKicks(3 more steps)', lg, {'/RFKicks/data': ([2], X['kicks'], 3, 3)}, 'append-rfkicks')
+    # the next block of kicks is shorter (the last output interval of a run, or an interrupted one) and has new content
+    kb = ex.load(s, R['kicks'], IntTy(64)); ex.store(s, R['kicks'] + 8, IntTy(64), kb + 2 * 8)
+    kicks2 = symf(ex, s, R['kicks_data'], ['ll%d' % i for i in range(4)])
+    s, lg = run(s, 'e_append_rf', [h5, R['kicks']]); check_records('appendRFKicks(2 more steps, new content)', lg, {'/RFKicks/data': ([2], kicks2, 3, 2)}, 'append-rfkicks')
     s, lg = run(s, 'e_append_padded', [h5, R['wake']]); check_records('appendPadded', lg, {'/BunchProfile/padded': ([maxn], X['bpp'][:maxn], 0, 1), '/WakePotential/padded': ([maxn], X['wpp'][:maxn], 0, 1)}, 'append-padded')
     # tracks: physical coordinates by array lookup of the (concrete) grid positions
     pos = [(float(ex.load(s, R['tracks_data'] + 8 * i, F32)), float(ex.load(s, R['tracks_data'] + 8 * i + 4, F32))) for i in range(npart)]
@@ -131,14 +140,29 @@ def job_append(res, n, nb, N, npart):
     s, lg = run(s, 'e_append_tracks', [h5, R['tracks']]); check_records('appendTracks', lg, {'/Particles/data': ([npart, 2], want, 0, 1)}, 'append-tracks')
     account(res, ex, mod, [s])
 
+def path_label(path):
+    try: return str(json.load(open(path)).get('obligation', ''))
+    except Exception: return ''
+
 def replayer(bld):
     def rp(path, c):
         if c.get('replay') != 'layout': return (True, str(c)[:200])
         n, nb, N, npart = c['n'], c['nb'], c['N'], c['np']
         fn = os.path.join(OUT, 'replay', 'c10-%d.h5' % os.getpid()); os.makedirs(os.path.dirname(fn), exist_ok=True)
         os.environ['XDG_DATA_HOME'] = os.path.join(bld['dir'], 'xdg')
-        o = native_run(bld, {'n': n, 'nb': nb, 'N': N, 'np': npart, 'file': fn, 'ops': ['ps_all', 'ef', 'wkm', 'tracks', 'rf', 'padded']}, 'c10')
+        later = 'new content' in str(c.get('obligation', '')) or 'new content' in path_label(path)
+        try:
+            o = native_run(bld, {'n': n, 'nb': nb, 'N': N, 'np': npart, 'file': fn, 'ops': ['ps_all', 'ef', 'rf', 'mut', 'ef', 'rf', 'wkm', 'tracks', 'padded'] if later else ['ps_all', 'ef', 'wkm', 'tracks', 'rf', 'padded']}, 'c10')
+        except RuntimeError as e:
+            return (True, 'real HDF5File: the native run of the append sequence does not complete: %s' % str(e)[-200:])
         bad = []
+        if later:
+            NM = len(o['src:csrspec']) // nb; maxn = N // 2; rows = lambda sp: [sp[b * NM + k] for b in range(nb) for k in range(maxn)]
+            def cmp2(a, b, what):
+                if len(a) != len(b) or any(struct.pack('<f', x) != struct.pack('<f', y) for x, y in zip(a, b)): bad.append(what)
+            cmp2(o['/CSR/Spectrum/data'], rows(o['src0:csrspec']) + rows(o['src:csrspec']), 'second CSR spectrum record != the field\'s spectrum at that time')
+            cmp2(o['/RFKicks/data'], list(o['src0:kicks']) + list(o['src:kicks']), 'RF kick records != first block followed by the (shorter) second block')
+            return (len(bad) > 0, 'real file, two appends with the objects changed in between, read back with libhdf5: ' + ('; '.join(bad) if bad else 'both records match their sources'))
         def cmp(a, b, what):
             if len(a) != len(b) or any(struct.pack('<f', x) != struct.pack('<f', y) for x, y in zip(a, b)): bad.append(what)
         cmp(o['/Info/AxisValues_z'], o['src:axis0'], 'AxisValues_z != position axis'); cmp(o['/Info/AxisValues_E'], o['src:axis1'], 'AxisValues_E != energy axis')
